@@ -160,14 +160,18 @@ func TestBatching(t *testing.T) {
 				classes["same-cid-in-batch"] = true
 				classes["nontrivial"] = true
 			}
+			// operations arrive with the context of the request that carries
+			// them, which ends as soon as the request is answered
+			opctx, opcancel := context.WithCancel(ctx)
 			var err error
 			if isPin {
-				err = r.Cons.LogPin(ctx, p)
+				err = r.Cons.LogPin(opctx, p)
 				script = append(script, "pin("+cn(p.Cid)+","+p.Name+")")
 			} else {
-				err = r.Cons.LogUnpin(ctx, p)
+				err = r.Cons.LogUnpin(opctx, p)
 				script = append(script, "unpin("+cn(p.Cid)+")")
 			}
+			opcancel()
 			if err != nil {
 				script[len(script)-1] += "!err"
 				switch {
